@@ -9,3 +9,9 @@ pub mod util;
 pub mod c20;
 #[cfg(kani)]
 pub mod c12;
+#[cfg(kani)]
+pub mod c11;
+#[cfg(kani)]
+pub mod c19;
+#[cfg(kani)]
+pub mod c16;
